@@ -340,6 +340,18 @@ static void report(Ctx &c, const std::string &sig, const std::string &desc)
         c.violation(sig, desc);
 }
 
+// silent version of the round-trip test, used in the parent to quarantine states (no descendants of a state that
+// does not round-trip: one defect, one minimal witness)
+static bool roundtrips(const RCP<const Basic> &r)
+{
+    try {
+        std::string s = r->__str__();
+        RCP<const Basic> p = parse(s);
+        return has_float(*r) ? fkey(*p) == fkey(*r) : key(*p) == key(*r);
+    } catch (std::exception &) {
+        return false;
+    }
+}
 // all checks on one produced state r; returns false when violating
 static bool check_state(const RCP<const Basic> &r, const std::string &recipe, Ctx &c)
 {
@@ -584,9 +596,8 @@ struct Explorer {
                 (void)fkey(*r);
                 if (g_nonfinite)
                     continue;
-                std::string ud;
-                if (!find_unstable(*r, ud).empty())
-                    continue; // quarantine: no descendants of a state that is not canonical
+                if (SS.idx.find(key(*r)) == SS.idx.end() && !roundtrips(r))
+                    continue; // quarantine (the transition itself has been reported by the worker)
                 add_state(r, recipe(op, ia, ib), n, op, ia, ib);
             } catch (std::exception &) {
             }
